@@ -19,8 +19,14 @@ def soup(r, maxlen=12):
     return "".join(r.choice(TOKENS) for _ in range(r.randint(1, maxlen)))
 
 
+SMILES_LIKE = ["OCC(O)CO.OP(=O)(O)O", "C[SeH]", "[Na+].[Cl-]", "OC1OC(CO)C([GaH2])C(O)C1O", "CCO", "O", "C", "N", "OP(=O)(O)O", "c1ccccc1", "B",
+               "Cl[Pt](Cl)(N)N", "OC1OC(CO)C(O)C(O)C1O", "O1C(O)[C@H](O)[C@@H](O)[C@H](O)[C@H]1CO", "CC(=O)O.[Na+]", "[TeH2]", "C1CC1", "OS(=O)(=O)O", "F", "I"]
+
+
 def bad_string(r):
-    k = r.randint(0, 9)
+    k = r.randint(0, 10)
+    if k == 10:
+        return r.choice(SMILES_LIKE)             # text that a SMILES reader accepts is not a glycan
     if k == 0:
         return soup(r)
     if k == 1:
